@@ -15,6 +15,10 @@ PROBES = {False: {'p1': ['p1'], 'p2': ['p2'], 'q1': ['p1'], 'q2': ['p2'], 'q3': 
           True: {'p1': ['p1', 'p2'], 'p2': ['p2'], 'q1': ['p1', 'p2'], 'q2': ['p2'], 'q3': []}}
 QUERY = {False: {'q1': '10.1.1.5', 'q2': '10.2.3.4', 'q3': '10.9.9.9'}, True: {'q1': '10.1.1.5', 'q2': '10.1.2.5', 'q3': '10.9.9.9'}}
 NESTED = False
+# every eighth history: the second attribute set of RECEIVED IPv4 routes is the empty one (an UPDATE with NLRI and a Total
+# Path Attribute Length of 0; yabgp accepts it and keeps the routes with {} as attributes).  Lookups through REST cannot
+# tell such a route from an absent one (ip_longest_match tests the attributes for truth), so C19.lookup is not judged there.
+EMPTYMODE = False
 F = {'f1': ((192, 85, 1), '192.85.1.0/24'), 'f2': ((192, 85, 2), '192.85.2.0/24')}
 V = {'v1': (bytes([170, 0, 0, 0]), '170.0.0.0/32'), 'v2': (bytes([171, 0, 0, 0]), '171.0.0.0/32')}
 RD = b'\x00\x00\x00\x64\x00\x00\x00\x64'
@@ -49,6 +53,8 @@ def peer_update(f, wd, nl, a):
     """octets of the UPDATE a peer would send (harness-side encoder, independent of yabgp)"""
     if f == 'ipv4':
         attrs = (BASE + wire.attr(0x40, 3, nh_of(a)) + med_attr(a)) if nl else b''
+        if EMPTYMODE and a == 2:
+            attrs = b''            # announcement without any path attribute: the route is held with an empty attribute set
         return wire.update(withdrawn=b''.join(wire.prefix4(P[k][0], P[k][1]) for k in wd), attrs=attrs,
                            nlri=b''.join(wire.prefix4(P[k][0], P[k][1]) for k in nl))
     if f == 'flowspec':
@@ -96,8 +102,11 @@ def rest_body(f, wd, nl, a):
 
 
 def attr_id(attr):
-    if not attr:
+    if attr is None:
         return 0
+    if not attr:
+        # a route held with an empty attribute set: in EMPTYMODE that is attribute set 2, otherwise nothing the harness sent
+        return 2 if EMPTYMODE else 99
     if NHMODE:
         nh = attr.get(3, attr.get('3'))
         return {'10.0.0.2': 1, '10.0.0.3': 2, '10.0.0.1': 1, '10.0.0.4': 2}.get(nh, 99)
@@ -168,9 +177,10 @@ class RibRun(object):
 
 
 def replay_walk(g, walk, tid):
-    global NHMODE, NESTED
+    global NHMODE, NESTED, EMPTYMODE
     NHMODE = bool(tid % 2)
     NESTED = bool((tid // 2) % 2)
+    EMPTYMODE = (tid % 8 == 4)
     P.clear()
     P.update(P_NESTED if NESTED else P_FLAT)
     run = RibRun()
@@ -207,7 +217,7 @@ def replay_walk(g, walk, tid):
         ribin, ribout, ver, restok, lookup = run.observe(up)
         lines.append({'tid': tid, 'i': i, 'k': k, 'd': ev['d'], 'f': ev['f'], 'wd': ev['wd'], 'nl': ev['nl'], 'a': ev['a'],
                       'shape': 'wd%d-nl%d' % (len(ev['wd']), len(ev['nl'])), 'up': up, 'ribin': ribin, 'ribout': ribout, 'ver': ver,
-                      'restok': restok, 'sendok': sendok, 'exc': len(o['errs']), 'lookup': lookup, 'cov': PROBES[NESTED]})
+                      'restok': restok, 'sendok': sendok, 'exc': len(o['errs']), 'lookup': lookup, 'cov': ({} if EMPTYMODE else PROBES[NESTED])})
         if drift is None and up and k == 'update':
             mt, mv = obs['tab'], obs['ver']
             same_in = all(ribin.get(k2) == v2 for k2, v2 in mt['in']['ipv4'].items())
